@@ -88,17 +88,20 @@ std::vector<std::pair<std::string, std::string>> g_fails;
 void fail(const std::string& key, const std::string& what, const std::string&) { g_fails.emplace_back(key, what); }
 bool IsCopyOp(const Op& o) { return (o.t == DEL && ((o.x >= 1 && o.x <= 3) || o.x >= 5)) || (o.t == ANN && o.x == 2); }
 uint64_t g_baseline_fail;
+constexpr int N_VARIANTS = 8;
 std::string g_baseline_sample;
 
 // ---------------------------------------------------------------------------------- the wiring (transcribed from net_processing.cpp)
 struct Wiring {
-    FastRandomContext rng{true};
+    FastRandomContext rng;
     TxDownloadManagerImpl dm;
     int64_t now_s;
     std::set<int> connected;
     std::map<int, bool> wtxid_relay;
 
-    Wiring() : dm(node::TxDownloadOptions{N->pool(), rng, /*deterministic_txrequest=*/true}), now_s(T0) { SetMockTime(now_s); }
+    // variant 0 is the deterministic context the exploration uses; other variants only change the node's internal coin flips
+    // (which announcer of an orphan gets the reconsideration work)
+    explicit Wiring(int variant = 0) : rng(uint256{(uint8_t)variant}), dm(node::TxDownloadOptions{N->pool(), rng, /*deterministic_txrequest=*/true}), now_s(T0) { SetMockTime(now_s); }
     std::chrono::microseconds now() const { return std::chrono::seconds{now_s}; }
 
     void Connect(int p, bool preferred, bool relay_perm, bool wtxid)
@@ -293,18 +296,18 @@ std::string Probe(Wiring& w, const std::string& hist)
     return sig;
 }
 
-bool replay_raw(const std::string& hist, std::string& key)
+bool replay_raw(const std::string& hist, std::string& key, int variant = 0, bool skip_disabled = false)
 {
     g_fails.clear();
     ClearPool();
-    Wiring w;
+    Wiring w(variant);
     w.Connect(PA, /*preferred=*/false, false, /*wtxid=*/true);
     w.Connect(PH, /*preferred=*/true, false, /*wtxid=*/true);
     w.Connect(PT, /*preferred=*/false, false, /*wtxid=*/false);
     int nblocks = 0;
     for (size_t i = 0; i < hist.size(); i++) {
         const Op& o = OPS[(unsigned char)hist[i]];
-        const bool last = i + 1 == hist.size();
+        const bool last = !skip_disabled && i + 1 == hist.size(); // (a baseline run treats a disabled event as a no-op)
         if (o.t != CLK && o.t != BLOCK && o.t != REORG && !w.connected.count(o.peer)) { if (last) return false; continue; }
         switch (o.t) {
         case DEL: {
@@ -351,11 +354,14 @@ bool replay(const std::string& hist, std::string& key)
     // the same history without the malleated copies
     std::string base;
     for (unsigned char c : hist) if (!IsCopyOp(OPS[c])) base.push_back((char)c);
+    // ... under every variant of the node's internal randomness that is tried: the copies must not be blamed for a coin flip
     std::set<std::string> base_keys;
     if (base != hist) {
-        std::string k2;
-        replay_raw(base, k2);
-        for (auto& f : g_fails) base_keys.insert(f.first);
+        for (int variant = 0; variant < N_VARIANTS; variant++) {
+            std::string k2;
+            replay_raw(base, k2, variant, /*skip_disabled=*/true);
+            for (auto& f : g_fails) base_keys.insert(f.first);
+        }
     }
     for (auto& f : fails) {
         if (base == hist || base_keys.count(f.first)) {
@@ -472,13 +478,16 @@ std::string e2e_describe(const std::string& h)
     return s;
 }
 
-std::vector<std::string> RunE2E(const std::string& hist)
+std::vector<std::string> RunE2E(const std::string& hist, int variant = 0)
 {
     std::vector<std::string> fails;
     ClearPool();
     int64_t now = T0;
     SetMockTime(now);
-    pk::Net net(*N, {});
+    pk::NetOpts nopts;
+    if (variant > 0) nopts.peerman_tweak = [](PeerManager::Options& o) { o.deterministic_rng = false; }; // seeded from the (deterministic) global stream below
+    pk::Net net(*N, nopts);
+    for (int k = 0; k < variant; k++) (void)GetRandHash();
     auto spec = [](ConnectionType t, const char* ip, bool wtxid) { pk::PeerSpec s; s.type = t; s.ip = ip; s.wtxid_relay = wtxid; return s; };
     pk::Peer* peers[4] = {&net.AddPeer(spec(ConnectionType::INBOUND, "11.1.1.1", true)), &net.AddPeer(spec(ConnectionType::OUTBOUND_FULL_RELAY, "12.2.2.2", true)),
                           &net.AddPeer(spec(ConnectionType::INBOUND, "13.3.3.3", false)), &net.AddPeer(spec(ConnectionType::INBOUND, "14.4.4.4", true))};
@@ -509,7 +518,8 @@ std::vector<std::string> RunE2E(const std::string& hist)
             if (m.type == "getdata") for (auto& inv : pk::ParseInvVector(m)) if (inv.IsMsgWtx() && inv.hash == G->GetWitnessHash().ToUint256() && !asked) { asked = true; asked_at = t; }
     }
     const bool g_orph = [&] { for (auto& o : net.peerman->GetOrphanTransactions()) if (o.tx->GetWitnessHash() == G->GetWitnessHash()) return true; return false; }();
-    if (!asked && !g_orph) fails.push_back("C64-e2e-not-requested");
+    // (G may have been sitting in the orphanage and been accepted by pending orphan work while the clock was stepped)
+    if (!asked && !g_orph && !InPool(G)) fails.push_back("C64-e2e-not-requested");
     if (asked) { if (asked_at <= 8) g_e2e_getdata_fast++; else g_e2e_getdata_late++; }
     net.Deliver(F, pk::MsgTx(*G));
     round();
@@ -542,7 +552,7 @@ void ExploreE2E(int depth)
                 std::string base;
                 for (unsigned char c : h) if (!(EOPS[c].kind == 0 && ((EOPS[c].x >= 1 && EOPS[c].x <= 3) || EOPS[c].x >= 5))) base.push_back((char)c);
                 std::set<std::string> bf;
-                if (base != h) for (auto& f : RunE2E(base)) bf.insert(f);
+                if (base != h) for (int variant = 0; variant < N_VARIANTS; variant++) for (auto& f : RunE2E(base, variant)) bf.insert(f);
                 for (auto& f : fails) {
                     if (base == h || bf.count(f)) { g_e2e_baseline_fail++; continue; }
                     vx::violation(f, "end-to-end through ProcessMessage: genuine G not requested / not accepted after this history (passes without the malleated copies)", e2e_describe(h));
@@ -686,7 +696,7 @@ int run()
     E.assume("block and reorg events reach the download manager as callbacks with unrelated blocks; the chain and therefore the validity of G do not change");
     E.assume("states whose hidden request-tracker timing differs but yields the same getdata schedule under the probe are merged (observational equivalence)");
     if (!g_baseline_sample.empty()) E.sample("NOT a violation of this property (no malleated copy involved): " + g_baseline_sample);
-    E.assume("a probe failure counts only if the same history with the malleated deliveries/announcements removed passes the probe (the property is about what a copy causes)");
+    E.assume("a probe failure counts only if the same history with the malleated deliveries/announcements removed passes the probe under each of 8 seeds of the node's internal randomness (the property is about what a copy causes, not about which announcer a coin flip assigns orphan work to)");
     E.assume("mode 1: G spends a confirmed coin; mode 2: G spends the unconfirmed, initially unknown parent P (orphan forms of all copies)");
     if (complete && vx::rep().violations == 0 && (g_e2e_accept == 0 || g_e2e_getdata_fast == 0)) { printf("HARNESS-ERROR property=C64 vacuous end-to-end stage\n"); vx::write_evidence(); return 2; }
     if (complete && vx::rep().violations == 0)
